@@ -59,10 +59,14 @@ def sub_ref(case):
     # steps are summed exactly, so this only matters for non-integral float data; there the 1e-6 claim is decided
     # where the conditioning leaves room for it, and ill-conditioned cases are counted, not judged (DESIGN C15).
     slack = 0.0
-    v = xs[valid]
-    if v.size and not case.get("integral", True):
-        ss = float(np.sum((v - v.mean()) ** 2))
-        slack = 200 * refs.U * (float(np.sum(v * v)) / ss) if ss > 0 else np.inf
+    if not case.get("integral", True):
+        # conditioning of each lagged vector separately (X = x[:-1], Y = x[1:]): the variance of a vector whose valid cells
+        # nearly coincide is a difference of nearly equal sums even when the whole series varies a lot
+        for vec, ok in ((xs[:-1], valid[:-1]), (xs[1:], valid[1:])):
+            v = vec[ok]
+            if v.size:
+                ss = float(np.sum((v - v.mean()) ** 2))
+                slack = max(slack, 200 * refs.U * (float(np.sum(v * v)) / ss) if ss > 0 else np.inf)
     desc = "(n=%d, %d valid, enc=%s, x=%s)" % (x.size, int(valid.sum()), enc, fmt(np.where(valid, x, np.nan), 16))
     if slack > 1e-7:
         req(abs(r) <= 1.5, "autocorr_1d = %.9g far outside [-1,1] %s" % (r, desc), "autocorr out of range")
